@@ -290,10 +290,20 @@ where
             } else if implicit_rule.as_ref() == Some(astrulename) {
                 // Add the implicit rule: ~: "IMPLICIT_TOKEN_1" ~ | ... | "IMPLICIT_TOKEN_N" ~ | ;
                 let implicit_prods = &mut rules_prods[usize::from(rule_map[astrulename])];
-                // Add a production for each implicit token
-                for t in ast.implicit_tokens.as_ref().unwrap().keys() {
+                // Add a production for each implicit token (in token order: iterating the
+                // randomly seeded map directly would number the productions differently from one
+                // process to the next).
+                let mut implicit_tidxs = ast
+                    .implicit_tokens
+                    .as_ref()
+                    .unwrap()
+                    .keys()
+                    .map(|t| token_map[t])
+                    .collect::<Vec<_>>();
+                implicit_tidxs.sort();
+                for tidx in implicit_tidxs {
                     implicit_prods.push(PIdx(prods.len().as_()));
-                    prods.push(Some(vec![Symbol::Token(token_map[t]), Symbol::Rule(ridx)]));
+                    prods.push(Some(vec![Symbol::Token(tidx), Symbol::Rule(ridx)]));
                     prod_precs.push(Some(None));
                     prods_rules.push(Some(ridx));
                 }
